@@ -74,14 +74,40 @@ fn isolation_configs(tier: Tier) -> Vec<(Cfg, Plan)> {
     // root relations: same, A below B, B below A, unrelated
     let root_pairs: [(usize, usize); 4] = [(0, 0), (1, 0), (0, 1), (0, 2)];
     let mut v = Vec::new();
+    // quick: every prefix relation under the same root, every root relation with the same prefix, and
+    // three mixed pairs; thorough: the full product
+    let quick_pairs: [((usize, usize), (usize, usize)); 11] = [
+        ((0, 0), (0, 0)),
+        ((2, 0), (0, 0)),
+        ((0, 2), (0, 0)),
+        ((0, 1), (0, 0)),
+        ((0, 3), (0, 0)),
+        ((0, 0), (1, 0)),
+        ((0, 0), (0, 1)),
+        ((0, 0), (0, 2)),
+        ((2, 0), (1, 0)),
+        ((0, 2), (0, 1)),
+        ((0, 3), (0, 2)),
+    ];
     for (pa, pb) in prefix_pairs {
         for (ra, rb) in root_pairs {
-            if quick && ((pa, pb) == (1, 0) || ((pa, pb) == (0, 3) && (ra, rb) == (1, 0))) {
+            if quick && !quick_pairs.contains(&((pa, pb), (ra, rb))) {
                 continue;
             }
-            let depth = if quick { 4 } else { 5 };
-            let plan = Plan { tree_depth: depth, finish_prefixes: false, frontier: if quick { None } else { Some((400, 9)) }, split: if quick { 1 } else { 2 } };
-            v.push((Cfg::Iso(ICfg { a: DomCfg { prefix: pa, root: ra }, b: DomCfg { prefix: pb, root: rb }, spawn_anytime: !quick }), plan));
+            // one step costs 15..35 ms (files, shared memory, a helper process for the dead node), so the
+            // depth follows the risk: deepest where both applications share the root directory
+            let same_root = (ra, rb) == (0, 0);
+            let nested_same_prefix = (pa, pb) == (0, 0) && (ra, rb) != (0, 2);
+            let depth = if quick {
+                if same_root { 4 } else { 3 }
+            } else if same_root || nested_same_prefix {
+                5
+            } else {
+                4
+            };
+            let frontier = if !quick && same_root { Some((120, 7)) } else { None };
+            let plan = Plan { tree_depth: depth, finish_prefixes: false, frontier, split: if !quick && depth == 5 { 3 } else { 1 } };
+            v.push((Cfg::Iso(ICfg { a: DomCfg { prefix: pa, root: ra }, b: DomCfg { prefix: pb, root: rb }, spawn_anytime: !quick && same_root }), plan));
         }
     }
     v
@@ -113,7 +139,7 @@ impl Harness for H {
         }
         let _ = std::fs::remove_dir_all(&dir);
         format!(
-            "(a) validation: one execution = one chunk of the input space of one string type (FileName, RestrictedFileName<8>, Path, FilePath, UserName, GroupName, Base64Url, ServiceName, NodeName); the single operation CheckChunk loops over the chunk. Chunks per type: every byte string of length 0..=2 over 0..=255; every byte string of length 3 over 0..=255 (both tiers, split by first byte; for the &str constructors of ServiceName / NodeName only the valid UTF-8 strings are expressible); every string over {{'a','/','.',NUL,one type specific byte}} up to length 8; strings of length max-1, max, max+1, max+2 with special bytes and endings at the borders; every mutating operation (push, push_bytes, insert, insert_bytes, remove, remove_range, pop, retain, strip_prefix, strip_suffix, truncate) with every byte (single byte operations: 0..=255) / chunk of length <= 2 over a 12 byte alphabet / position on every accepted string of length <= 2 over that alphabet; derived names (FilePath::file_name/path, Path::entries, FilePath::from_path_and_file, Path::add_path_entry). Each input is compared with an independent predicate written from the documentation (accept <=> predicate, round trip through as_bytes / Display / Into<String>, a rejected edit leaves the value untouched, accepted file names contain no separator, NUL, '.' or '..'). This run: {inputs} inputs in {chunks} chunks checked, {accepted} accepted. (b) isolation: every sequence of create/drop node, create/drop service `svc` (publish-subscribe, event), 'a forked process creates a node and a service and dies', cleanup of dead nodes by two applications A and B (ipc service type) for 6 prefix relations (same, prefix of one another in both directions, common stem in both directions, unrelated) x 4 root path relations (same, nested in both directions, unrelated); after every step both sides list nodes, list services, call does_exist and try to open, and must see exactly the objects of their own domain; files and shared memory objects that appear carry the acting side's prefix and files lie under its root. A distinct state is (node, services held, dead nodes) of both sides."
+            "(a) validation: one execution = one chunk of the input space of one string type (FileName, RestrictedFileName<8>, Path, FilePath, UserName, GroupName, Base64Url, ServiceName, NodeName); the single operation CheckChunk loops over the chunk. Chunks per type: every byte string of length 0..=2 over 0..=255; every byte string of length 3 over 0..=255 (both tiers, split by first byte; for the &str constructors of ServiceName / NodeName only the valid UTF-8 strings are expressible); every string over {{'a','/','.',NUL,one type specific byte}} up to length 8; strings of length max-1, max, max+1, max+2 with special bytes and endings at the borders; every mutating operation (push, push_bytes, insert, insert_bytes, remove, remove_range, pop, retain, strip_prefix, strip_suffix, truncate) with every byte (single byte operations: 0..=255) / chunk of length <= 2 over a 12 byte alphabet / position on every accepted string of length <= 2 over that alphabet; derived names (FilePath::file_name/path, Path::entries, FilePath::from_path_and_file, Path::add_path_entry). Each input is compared with an independent predicate written from the documentation (accept <=> predicate, round trip through as_bytes / Display / Into<String>, a rejected edit leaves the value untouched, accepted file names contain no separator, NUL, '.' or '..'). This run: {inputs} inputs in {chunks} chunks checked, {accepted} accepted. (b) isolation: every sequence of create/drop node, create/drop service `svc` (publish-subscribe, event), 'a forked process creates a node and a service and dies', cleanup of dead nodes by two applications A and B (ipc service type) for pairs of domain configurations drawn from 6 prefix relations (same, prefix of one another in both directions, common stem in both directions, unrelated) x 4 root path relations (same, nested in both directions, unrelated) - thorough: all 24, quick: 11 covering every relation; after every step both sides list nodes, list services and call does_exist, the side that did not act also tries to open, and must see exactly the objects of their own domain; files and shared memory objects that appear carry the acting side's prefix and files lie under its root. A distinct state is (node, services held, dead nodes) of both sides."
         )
     }
     fn configs(&self, tier: Tier) -> Vec<(Cfg, Plan)> {
